@@ -25,8 +25,8 @@ var commonAssume = []string{
 
 func init() {
 	add(&Prop{ID: "C07",
-		Rules: []string{"CONST"},
-		Decided: "E6-CONST: word-base constants (_DB=10^_DW, _DW, _DWb, _DMax), pow10tab, pow2digitsTab, decMaxPow32/64, pow5tab, the reciprocal constant mP of div10W_g, every pow10DivTab64/32 entry (exact-division criterion proved for every word-sized dividend), layout of struct magic, enumerator equality with math/big.",
+		Rules:      []string{"CONST"},
+		Decided:    "E6-CONST: word-base constants (_DB=10^_DW, _DW, _DWb, _DMax), pow10tab, pow2digitsTab, decMaxPow32/64, pow5tab, the reciprocal constant mP of div10W_g, every pow10DivTab64/32 entry (exact-division criterion proved for every word-sized dividend), layout of struct magic, enumerator equality with math/big.",
 		NotDecided: "instruction-level equivalence of an assembly body and its portable twin (needs symbolic execution of x86 code, a different technique family)",
 		Assume:     commonAssume,
 		Technique:  "constant/table evaluation against mathematical definitions (go/types constants + math/big on source constants)",
